@@ -497,3 +497,26 @@ C(f"{F}:Parser.set_decorators", params={"self": "obj:Parser", "target": "obj:Pos
 C(f"{F}:Parser.check_fstring_conversion", params={"self": "obj:Parser", "name": "Tok"}, returns="int", requires=TKW + ["tok_wf(name)"],
   ensures=["(name.string == 's' and result == 115) or (name.string == 'r' and result == 114) or (name.string == 'a' and result == 97)"],
   raises=["SyntaxError"], raises_ensures=[WF], modifies=ERRMOD, properties=["C10", "C11", "C02"])
+
+# ---------------------------------------------------------------------------------------------- "cannot assign to / delete X" (C02, C11, C03)
+TNODE = "opt[union[obj:ast.List#t|obj:ast.Tuple#t|obj:ast.Starred#t|obj:ast.Compare#t|obj:ast.Name|obj:ast.Subscript#t|obj:ast.Attribute#t|obj:PosNode]]"
+TGT = ["1 <= target and target <= 3"]            # Target.FOR_TARGETS / STAR_TARGETS / DEL_TARGETS (enum.auto(): 1, 2, 3)
+C(f"{F}:Parser.get_invalid_target", params={"self": "obj:Parser", "target": "int", "node": TNODE},
+  returns="opt[union[obj:ast.Starred#t|obj:ast.Compare#t|obj:ast.List#t|obj:ast.Tuple#t|obj:PosNode]]",
+  requires=TGT + ["tree_wf(node)"],
+  loops={0: {"types": {"inv": "opt[obj:PosNode]"}, "inv": []}},
+  ensures=[
+      # what is handed to the error constructor is a node of the tree, with well-formed positions
+      "is_none(result) or (tree_wf(result) and node_wf(result))",
+      "implies(is_none(node), is_none(result))",
+      # names, subscripts and attributes are valid targets; a starred target can be assigned to but not deleted
+      "implies(isinstance(node, (ast.Name, ast.Subscript, ast.Attribute)), is_none(result))",
+      "implies(isinstance(node, ast.Starred) and target == 3, result is node)"],
+  raises=[], pure=True, properties=["C02", "C11", "C03"])
+C(f"{F}:Parser.get_expr_name", params={"self": "obj:Parser", "node": "obj:PosNode"}, returns="str", verify=False,
+  why_assumed="dictionary keyed by node classes (type(node)); that it has a name for every expression class - no ValueError - is the lemma C03.expr_names.total "
+              "on the real table",
+  ensures=[], raises=[], pure=True, properties=["C03"])
+C(f"{F}:Parser.raise_syntax_error_invalid_target", params={"self": "obj:Parser", "target": "int", "node": TNODE},
+  requires=TKW + TGT + ["tree_wf(node)"],
+  ensures=["is_none(result)"], raises=["SyntaxError"], raises_ensures=[WF], modifies=ERRMOD, properties=["C02", "C11", "C03"])
